@@ -78,6 +78,10 @@ inductive DecOut where
   | err (e : Err)
   | capped           -- model only: the output cap was reached
 
+/-- the part of a preset dictionary that fits the dictionary buffer (`LZDecoder::new`) -/
+def presetUsedOf (preset : Array Nat) (dictBuf : Nat) : Array Nat :=
+  preset.extract (preset.size - min preset.size dictBuf) preset.size
+
 /-- `LZMAReader` over a raw LZMA1 stream (no `.lzma` header).
 `size = none` is `u64::MAX` (end marker expected). `cap` bounds the output of the model. -/
 def decodeRaw (pr : Params) (dictBuf : Nat) (preset : Array Nat) (size : Option Nat)
@@ -89,7 +93,7 @@ def decodeRaw (pr : Params) (dictBuf : Nat) (preset : Array Nat) (size : Option 
     match Dec.init input with
     | none => .err .eof
     | some d0 =>
-      let presetUsed := preset.extract (preset.size - min preset.size dictBuf) preset.size
+      let presetUsed := presetUsedOf preset dictBuf
       let fuel := (match size with | some n => n + 1 | none => cap + 1)
       let ps0 : Probs := Array.replicate (numProbs pr.lc pr.lp) PROB_INIT
       let (r, _, d) := (loopProg pr dictBuf fuel size Coder.init presetUsed [] 0).decRun ps0 d0
@@ -157,12 +161,12 @@ def parseBits (pr : Params) : List Sym → Coder → Hist → List Bool
         | none => h
     bits ++ parseBits pr rest c' h'
 
-/-- re-encode a parse with the model encoder (range encoder started fresh, finished with `finish`) -/
+/-- re-encode a parse with the model encoder (range encoder started fresh, finished with `finish`);
+    `fuel` is the symbol budget of the loop program: the decoder's (`n + 1` for a declared size `n`, `cap + 1` otherwise) -/
 def encodeParse (pr : Params) (dictBuf : Nat) (presetUsed : Array Nat) (size : Option Nat)
-    (parse : List Sym) : Option (List Nat) :=
+    (fuel : Nat) (parse : List Sym) : Option (List Nat) :=
   let bits := parseBits pr parse Coder.init presetUsed
   let ps0 : Probs := Array.replicate (numProbs pr.lc pr.lp) PROB_INIT
-  let fuel := parse.length + 1
   match (loopProg pr dictBuf fuel size Coder.init presetUsed [] 0).encRun bits ps0 Enc.init with
   | some (_, [], _, e) => some e.bytes
   | _ => none
